@@ -49,7 +49,28 @@ def cls_of(name):
     return getattr(importlib.import_module("sparkx.flow." + name), name)
 
 
+POOL = {"on": False, "objs": {}, "history": []}
+
+
+def pool_start():
+    """from now on `new` hands out ONE long-lived object per (class, constructor arguments)"""
+    POOL.update(on=True, objs={}, history=[])
+
+
+def pool_stop():
+    POOL.update(on=False, objs={}, history=[])
+
+
 def new(name, *a, **k):
+    if POOL["on"]:
+        key = (name, a, tuple(sorted(k.items())))
+        if key not in POOL["objs"]:
+            POOL["objs"][key] = _new(name, *a, **k)
+        return POOL["objs"][key]
+    return _new(name, *a, **k)
+
+
+def _new(name, *a, **k):
     if name == "LeeYangZeroFlow" and not a and not any(x in k for x in ("vmin", "vmax", "vstep")):
         return cls_of(name)(0.01, 0.3, 0.01, **k)  # the three positional arguments have no defaults
     return cls_of(name)(*a, **k)
@@ -115,15 +136,23 @@ def parse_pairs(s):
 
 
 # ------------------------------------------------------------------ generators
-def gen_ev(rng, lo, hi, wmode, split=False):
+def gen_ev(rng, lo, hi, wmode, split=False, mod=None, midrap=0.0):
+    """mod = (harmonic, v): azimuths follow 1 + 2 v cos(n (phi - psi)) around a random event plane;
+    midrap = probability of pz = 0 exactly (rapidity = pseudorapidity = 0.0)"""
     m = rng.randint(lo, hi)
     ev = []
+    psi = rng.uniform(-math.pi, math.pi)
     for i in range(m):
         pt = rng.uniform(0.2, 3.0)
         phi = rng.uniform(-math.pi, math.pi)
+        if mod:
+            while rng.uniform(0.0, 1.0 + 2.0 * mod[1]) > 1.0 + 2.0 * mod[1] * math.cos(mod[0] * (phi - psi)):
+                phi = rng.uniform(-math.pi, math.pi)
         eta = rng.uniform(-2.0, 2.0)
         if split and i < 2:  # one particle safely in each sub-event
             eta = (1 if i == 0 else -1) * rng.uniform(0.7, 2.0)
+        elif rng.random() < midrap:
+            eta = 0.0
         if wmode == "unset" or (wmode == "mixed" and rng.random() < 0.5):
             w = None
         else:
@@ -132,17 +161,43 @@ def gen_ev(rng, lo, hi, wmode, split=False):
     return ev
 
 
-def gen_case(rng, regular=False, lo=0, hi=10):
+def gen_case(rng, regular=False, lo=0, hi=10, params=None, holes=False):
     nev = rng.randint(1, 5)
     wmode = rng.choice(["unset", "set", "mixed"])
     lo_ = max(lo, 3) if regular else lo
-    flow = [gen_ev(rng, lo_, hi, wmode, split=regular) for _ in range(nev)]
+    p = params or dict(n=rng.randint(1, 4),
+                       weight=rng.choice(WEIGHTS if not regular else ["pT", "pT2", "pTn"] * 3 + WEIGHTS),
+                       gap=rng.choice([0.0, 0.0, 0.1, 0.5]))
+    mod = (p["n"], 0.25) if regular and rng.random() < 0.6 else None
+    midrap = 0.15 if regular and rng.random() < 0.4 else 0.0
+    flow = [gen_ev(rng, lo_, hi, wmode, split=regular, mod=mod, midrap=midrap) for _ in range(nev)]
     same = rng.random() < 0.5
-    ref = flow if same else [gen_ev(rng, lo_, hi, wmode, split=regular) for _ in range(nev)]
-    return dict(
-        n=rng.randint(1, 4), weight=rng.choice(WEIGHTS if not regular else ["pT", "pT2", "pTn"] * 3 + WEIGHTS),
-        gap=rng.choice([0.0, 0.0, 0.1, 0.5]), self_corr=rng.random() < 0.5, flow=flow, ref=ref, same=same,
-        sel=rng.choice(DOCUMENTED), wmode=wmode)
+    ref = flow if same else [gen_ev(rng, lo_, hi, wmode, split=regular, mod=mod, midrap=midrap) for _ in range(nev)]
+    case = dict(n=p["n"], weight=p["weight"], gap=p["gap"], self_corr=rng.random() < 0.5, flow=flow, ref=ref,
+                same=same, sel=rng.choice(DOCUMENTED), wmode=wmode, holes=[])
+    if holes:
+        add_holes(rng, case)
+    return case
+
+
+def add_holes(rng, case):
+    """events without particles and events whose particles all have weight 0, at the first / a middle / the last
+    position (the estimators must not care where such an event sits)"""
+    for _ in range(rng.randint(1, 3)):
+        nev = len(case["flow"])
+        pos = rng.choice([0, nev, rng.randint(1, max(1, nev - 1))])  # first / last / a middle position
+        kind = rng.choice(["empty", "empty", "zero-weight", "empty-flow"])
+        if kind == "empty":
+            f, r = [], []
+        elif kind == "zero-weight":
+            f = [(px, py, pz, 0.0) for px, py, pz, _ in gen_ev(rng, 2, 5, "unset", split=True)]
+            r = f if case["same"] else gen_ev(rng, 3, 6, "unset", split=True)
+        else:
+            f = []
+            r = [] if case["same"] else gen_ev(rng, 3, 6, "unset", split=True)
+        case["flow"] = case["flow"][:pos] + [f] + case["flow"][pos:]
+        case["ref"] = case["flow"] if case["same"] else case["ref"][:pos] + [r] + case["ref"][pos:]
+        case["holes"].append((kind, "first" if pos == 0 else "last" if pos == nev else "middle"))
 
 
 def sel_val(p, sel):
@@ -160,6 +215,8 @@ def gen_edges(rng, parts, sel, exact_prob=0.3):
             cuts.append(rng.choice(vals))
         else:
             cuts.append(rng.uniform(lo, hi))
+    if sel != "pT" and any(v == 0.0 for v in vals) and rng.random() < 0.7:
+        cuts = cuts[:max(0, len(cuts) - 1)] + [0.0]  # an inner edge exactly at y = eta = 0.0
     mode = rng.random()
     if mode < 0.5:
         edges = [lo] + sorted(cuts) + [hi]
@@ -575,7 +632,7 @@ def ep_regular(name, case, flow, ref, margin=1e-6):
         sc = sum(abs(wq(p)) for p in evr) + 1e-300
         QA = sum(wq(p) * cmath.exp(1j * n * p.phi()) for p in evr if p.pseudorapidity() >= gap)
         QB = sum(wq(p) * cmath.exp(1j * n * p.phi()) for p in evr if p.pseudorapidity() < -gap)
-        if abs(QA) < margin * sc or abs(QB) < margin * sc:
+        if not (QA == 0 and QB == 0) and (abs(QA) < margin * sc or abs(QB) < margin * sc):
             return False
         Q = sum(wq(p) * cmath.exp(1j * n * p.phi()) for p in evr)
         for p in evf:
@@ -598,7 +655,7 @@ def away_from_edges(case, flow, ref, edges, margin=1e-7):
     return True
 
 
-RELATIONS = ["rotate", "perm-particles", "perm-events", "single-bin"]
+RELATIONS = ["rotate", "perm-particles", "perm-events", "single-bin", "bins"]
 
 
 def transformed(rel, case, flow, ref, aux):
@@ -617,7 +674,28 @@ def transformed(rel, case, flow, ref, aux):
     return f2, r2
 
 
+def pweight(t):
+    return 1.0 if t[3] is None else t[3]
+
+
+def restrict_flow(flow, sel, lo, hi):
+    """[lo, hi) on the value the Particle class reports for the documented selector"""
+    return [[t for t in ev if lo <= sel_val(P(t), sel) < hi] for ev in flow]
+
+
+def tight_bin(flow, sel):
+    """one bin whose lower edge is bit-equal to the smallest selector value of the sample"""
+    vals = [sel_val(P(t), sel) for ev in flow for t in ev]
+    return [float(min(vals)), float(max(vals)) + 1.0] if vals else [0.0, 1.0]
+
+
 def check_relation(name, rel, case, aux):
+    if POOL["on"]:
+        POOL["history"].append(dict(estimator=name, relation=rel, case=_case_json(case, "oracle"), aux=aux))
+    return _check_relation(name, rel, case, aux)
+
+
+def _check_relation(name, rel, case, aux):
     """None or (key, what, detail): the REAL estimator `name` violates relation `rel` on this input"""
     flow, ref = case["flow"], case["ref"] if not case["same"] else case["flow"]
     edges = aux["edges"]
@@ -627,16 +705,27 @@ def check_relation(name, rel, case, aux):
         with np.errstate(all="ignore"):
             base = complex(f.integrated_flow(mk(flow)))
             dbase = [complex(z) for z in f.differential_flow(mk(flow), edges, case["sel"])]
+            if rel == "bins":
+                for b, (lo, hi) in enumerate(zip(edges[:-1], edges[1:])):
+                    sub = restrict_flow(flow, case["sel"], lo, hi)
+                    W = sum(pweight(t) for ev in sub for t in ev)
+                    exp = complex(f.integrated_flow(mk(sub))) if W != 0 else 0j
+                    if abs(exp - dbase[b]) > 1e-11:
+                        return (f"{name}-bin-vs-restricted", f"bin [{lo!r}, {hi!r}) of the differential flow as function of "
+                                f"{case['sel']} is {dbase[b]}, the integrated flow of the particles with lo <= x < hi is {exp}",
+                                dict(expected=flat(exp), observed=flat(dbase[b]), bin=b))
+                return None
             if rel == "single-bin":
-                one = f.differential_flow(mk(flow), aux["allbin"], case["sel"])
-                if len(one) != 1 or abs(complex(one[0]) - base) > 1e-11:
-                    return (f"{name}-single-bin", f"differential flow over one bin containing every particle {one} != integrated {base}",
-                            dict(expected=flat(base), observed=flat(one)))
+                for bins1 in (aux["allbin"], tight_bin(flow, case["sel"])):
+                    one = f.differential_flow(mk(flow), bins1, case["sel"])
+                    if len(one) != 1 or abs(complex(one[0]) - base) > 1e-11:
+                        return (f"{name}-single-bin", f"differential flow over the single bin {bins1} containing every "
+                                f"particle {one} != integrated {base}", dict(expected=flat(base), observed=flat(one), bins=bins1))
                 # the reaction-plane value is the weighted mean of exp(i n phi) (independent reference)
                 ps = [p for ev in mk(flow) for p in ev]
                 W = sum((1.0 if np.isnan(p.weight) else p.weight) for p in ps)
                 S = sum((1.0 if np.isnan(p.weight) else p.weight) * cmath.exp(1j * n * math.atan2(p.py, p.px)) for p in ps)
-                if abs(S / W - base) > 1e-11:
+                if W != 0 and abs(S / W - base) > 1e-11:
                     return (f"{name}-weighted-mean", f"integrated flow {base} != weighted mean of exp(i n phi) {S / W}",
                             dict(expected=flat(S / W), observed=flat(base)))
                 # each bin of the differential flow is the weighted mean over the particles the documented
@@ -692,13 +781,26 @@ def check_relation(name, rel, case, aux):
     scale = s2_scale(name, mk(flow), Q, wref, res)
     base = run_real(name, case, flow, ref)
     if rel == "single-bin":
-        one = run_real(name, case, flow, ref, diff_edges=aux["allbin"])
-        bad = _cmp_pairs([base], one, tol, scale, cond)
-        if bad:
-            return (f"{name}-single-bin", f"differential flow over one bin containing every particle {one} != integrated {base}",
-                    dict(expected=flat(base), observed=flat(one)))
+        for bins1 in (aux["allbin"], tight_bin(flow, case["sel"])):
+            one = run_real(name, case, flow, ref, diff_edges=bins1)
+            bad = _cmp_pairs([base], one, tol, scale, cond)
+            if bad:
+                return (f"{name}-single-bin", f"differential flow over the single bin {bins1} containing every particle "
+                        f"{one} != integrated {base}", dict(expected=flat(base), observed=flat(one), bins=bins1))
         return None
     dbase = run_real(name, case, flow, ref, diff_edges=edges)
+    if rel == "bins":
+        if case["same"]:
+            ref = [list(e) for e in ref]  # the reference sample stays the full one
+        case_b = dict(case, same=False)
+        for b, (lo, hi) in enumerate(zip(edges[:-1], edges[1:])):
+            sub = restrict_flow(flow, case["sel"], lo, hi)
+            exp = run_real(name, case_b, sub, ref)
+            if _cmp_pairs([exp], [dbase[b]], tol, s2_scale(name, mk(sub), Q, wref, res), cond):
+                return (f"{name}-bin-vs-restricted", f"bin [{lo!r}, {hi!r}) of the differential flow as function of "
+                        f"{case['sel']} is {dbase[b]}, the integrated flow of the particles with lo <= x < hi "
+                        f"(same reference sample) is {exp}", dict(expected=flat(exp), observed=flat(dbase[b]), bin=b))
+        return None
     f2, r2 = transformed(rel, case, flow, ref, aux)
     case2 = dict(case)
     got = run_real(name, case2, f2, r2)
@@ -747,20 +849,24 @@ def _check_qc(rel, case, aux):
     its own random per-event rotation on every call, so equality is up to rounding."""
     flow = case["flow"]
     n, k = case["n"], aux["k"]
-    if min(len(e) for e in flow) < k + 2:
+    if min([len(e) for e in flow if e] + [99]) < k + 2:
         return None
     f = new("QCumulantFlow", n, k)
     with np.errstate(all="ignore"):
         base = f.integrated_flow(mk(flow))
         if not math.isfinite(float(base[0])) or abs(float(base[0])) < 1e-3:
             return None  # cumulant of the wrong sign / at the branch point: unstable by construction
+        if rel == "bins":
+            return None  # a bin of the differential Q-cumulant flow is not the integrated flow of a sub-sample
         if rel == "single-bin":
             if k == 6:
                 return None
-            one = new("QCumulantFlow", n, k).differential_flow(mk(flow), aux["allbin"], case["sel"])
-            if len(one) != 1 or len(one[0]) < 1 or not vclose(float(one[0][0]), float(base[0]), 1e-6):
-                return ("QCumulantFlow-single-bin", f"k={k}: differential flow over one bin containing every particle "
-                        f"{one} != integrated {base}", dict(expected=flat(base[0]), observed=flat(one)))
+            for bins1 in (aux["allbin"], tight_bin(flow, case["sel"])):
+                one = new("QCumulantFlow", n, k).differential_flow(mk(flow), bins1, case["sel"])
+                if len(one) != 1 or len(one[0]) < 1 or not vclose(float(one[0][0]), float(base[0]), 1e-6):
+                    return ("QCumulantFlow-single-bin", f"k={k}: differential flow over the single bin {bins1} containing "
+                            f"every particle {one} != integrated {base}",
+                            dict(expected=flat(base[0]), observed=flat(one), bins=bins1))
             return None
         f2, _ = transformed(rel, dict(case, same=True), flow, flow, aux)
         got = new("QCumulantFlow", n, k).integrated_flow(mk(f2))
@@ -790,7 +896,7 @@ def gen_aux(rng, case, qc=False):
         return p
     pe = perm(nev)
     pf = mk(flow)
-    edges = gen_edges(rng, pf, case["sel"], exact_prob=0.0)
+    edges = gen_edges(rng, pf, case["sel"], exact_prob=0.5 if rng.random() < 0.5 else 0.0)
     return dict(angles=angles, pf=[perm(len(e)) for e in flow], pr=[perm(len(e)) for e in ref], pe=pe,
                 edges=edges, allbin=[-1000.0, 1000.0], k=rng.choice([2, 4, 6]) if qc else None)
 
@@ -839,31 +945,115 @@ def search(ctx, budget_s):
         n += 1
         if res:
             _report(ctx, c["case"], c["aux"], res)
+    for key, what, detail in oracle_reuse_tables():
+        ctx.violation(key, what, dict(input=detail, how_to_replay="./check C12 --replay <this file>"))
     found = set()
     limit = 4000 if ctx.thorough else 250
-    while time.time() - t0 < budget_s and n < limit:
-        case = gen_case(rng, regular=True, lo=3, hi=9)
+    session = 0
+    while time.time() - t0 < budget_s and n < limit and len(found) < 5:
+        # one session = three samples analysed with the same constructor arguments; every second session
+        # re-uses ONE long-lived estimator object per class for all calls of the session
+        session += 1
+        pooled = session % 2 == 0
+        params = dict(n=rng.randint(1, 4), weight=rng.choice(["pT", "pT2", "pTn"] * 3 + WEIGHTS),
+                      gap=rng.choice([0.0, 0.0, 0.1, 0.5]))
         qc = rng.random() < 0.35
-        names = ["ReactionPlaneFlow", "ScalarProductFlow", "EventPlaneFlow"]
-        if qc:
-            case["flow"] = [gen_ev(rng, 8, 12, "unset") for _ in case["flow"]]
-            case["ref"], case["same"] = case["flow"], True
-            names = ["QCumulantFlow"]
-        aux = gen_aux(rng, case, qc=qc)
-        n += 1
-        ctx.case(("oracle", json.dumps(_case_json(case, "oracle"), sort_keys=True, default=str)), True)
-        ctx.count("oracle/" + ("qc" if qc else "rp-sp-ep"))
+        kq = rng.choice([2, 4, 6])
+        if pooled:
+            pool_start()
         try:
-            res = check_all(case, aux, names=names)
-        except Exception as e:
-            res = (names[0], "call", (f"{names[0]}-raises", f"estimator raised {type(e).__name__}: {e}", dict()))
-        if res and res[2][0] not in found:
-            found.add(res[2][0])
-            case, aux, res = shrink(case, aux, res)
-            _report(ctx, case, aux, res)
-            if len(found) >= 4:
-                break
+            for _ in range(3):
+                holes = rng.random() < 0.5
+                case = gen_case(rng, regular=True, lo=3, hi=9, params=params, holes=holes)
+                names = ["ReactionPlaneFlow", "ScalarProductFlow", "EventPlaneFlow"]
+                if qc:
+                    case["flow"] = [gen_ev(rng, 8, 12, "unset", mod=(case["n"], 0.3), midrap=0.1) for _ in range(rng.randint(2, 5))]
+                    case["ref"], case["same"], case["holes"] = case["flow"], True, []
+                    if holes:
+                        add_holes(rng, case)
+                    names = ["QCumulantFlow"]
+                aux = gen_aux(rng, case, qc=qc)
+                if qc:
+                    aux["k"] = kq
+                n += 1
+                ctx.case(("oracle", json.dumps(_case_json(case, "oracle"), sort_keys=True, default=str)), True)
+                ctx.count("oracle/" + ("qc" if qc else "rp-sp-ep") + ("/reused-objects" if pooled else "/fresh-objects")
+                          + ("/holes" if case["holes"] else ""))
+                for h in case["holes"]:
+                    ctx.count(f"oracle/hole/{h[0]}/{h[1]}")
+                try:
+                    res = check_all(case, aux, names=names)
+                except Exception as e:
+                    res = (names[0], "call", (f"{names[0]}-raises", f"estimator raised {type(e).__name__}: {e}", dict()))
+                if not res or res[2][0] in found:
+                    continue
+                history = list(POOL["history"])
+                if pooled:
+                    POOL["on"] = False  # does it fail with fresh objects as well?
+                    try:
+                        if res[1] != "call":
+                            fresh = _check_relation(res[0], res[1], case, aux)
+                        else:
+                            fr = check_all(case, aux, names=names)
+                            fresh = fr[2] if fr else None
+                    except Exception:
+                        fresh = res[2]
+                    if not fresh:
+                        key = f"instance-reuse-{res[0]}-{res[1]}"
+                        if key not in found:
+                            found.add(key)
+                            ctx.violation(key, "with ONE estimator object re-used for the calls of the history: " + res[2][1]
+                                          + " -- the same input passes with a fresh object",
+                                          dict(input=dict(history=history, constructor=dict(params, k=kq if qc else None)),
+                                               expected=res[2][2].get("expected"), observed=res[2][2].get("observed"),
+                                               how_to_replay="./check C12 --replay <this file>"))
+                        POOL["on"] = True
+                        continue
+                found.add(res[2][0])
+                was = POOL["on"]
+                POOL["on"] = False
+                if res[1] != "call":
+                    case, aux, res = shrink(case, aux, res)
+                _report(ctx, case, aux, res)
+                POOL["on"] = pooled and was
+        finally:
+            pool_stop()
     ctx.cov["oracle_cases"] = n
+
+
+def oracle_reuse_tables():
+    """the documented selectors are accepted by an estimator object that has been used before
+    (fresh object for comparison): a call that raises only on the re-used object is reported"""
+    out = []
+    data = _table_sample()
+    for c in CLASSES:
+        def call(obj, s):
+            parts = mk(data)
+            with np.errstate(all="ignore"):
+                if c in ("EventPlaneFlow", "ScalarProductFlow"):
+                    return obj.differential_flow(parts, [0.0, 1.0, 4.0], s, parts)
+                return obj.differential_flow(parts, [0.0, 1.0, 4.0], s)
+        try:
+            obj = _new(c)
+        except Exception:
+            continue  # reported by oracle_tables
+        hist = []
+        for s in DOCUMENTED + ["pT"]:
+            hist.append(s)
+            try:
+                call(_new(c), s)
+            except Exception:
+                break  # a fresh object fails too: reported by oracle_tables
+            try:
+                call(obj, s)
+            except Exception as e:
+                out.append((f"instance-reuse-{c}-differential_flow",
+                            f"{c}: call number {len(hist)} of differential_flow on the same object (selectors {hist}) raises "
+                            f"{type(e).__name__}: {str(e)[:100]}; a fresh object accepts the same call",
+                            dict(cls=c, history=[dict(method="differential_flow", selector=x, bins=[0.0, 1.0, 4.0]) for x in hist],
+                                 events=data)))
+                break
+    return out
 
 
 def _report(ctx, case, aux, res):
@@ -879,7 +1069,7 @@ def shrink(case, aux, res):
 
     def still(c, a):
         try:
-            r = check_relation(name, rel, c, a)
+            r = _check_relation(name, rel, c, a)
         except Exception:
             return None
         return r if r and r[0] == key else None
@@ -964,7 +1154,23 @@ def replay(ctx, path):
     if not inp:
         print(f"[C12] replay file names a broken obligation, not an input: {d.get('broken')}")
         return 1
-    if "estimator" in inp:
+    if "history" in inp and d.get("key", "").startswith("instance-reuse-") and "constructor" in inp:
+        pool_start()
+        r = None
+        try:
+            for h in inp["history"]:
+                c = h["case"]
+                c["flow"] = [[tuple(t) for t in ev] for ev in c["flow"]]
+                c["ref"] = c["flow"] if c["same"] else [[tuple(t) for t in ev] for ev in c["ref"]]
+                r = _check_relation(h["estimator"], h["relation"], c, h["aux"])
+        finally:
+            pool_stop()
+        if r:
+            r = (d["key"], "re-used estimator object: " + r[1])
+    elif d.get("key", "").startswith("instance-reuse-"):
+        rs = [x for x in oracle_reuse_tables() if x[0] == d.get("key")]
+        r = rs[0] if rs else None
+    elif "estimator" in inp:
         case = inp["case"]
         case["flow"] = [[tuple(t) for t in ev] for ev in case["flow"]]
         case["ref"] = case["flow"] if case["same"] else [[tuple(t) for t in ev] for ev in case["ref"]]
